@@ -309,6 +309,23 @@ CLAIMS["C20"] = (
     "delivers in send order.",
     "DESIGN.md §2 C20")
 
+CLAIMS["C12"] = (
+    "table/sibling extractors over the classification predicates and the emission grammar of the "
+    "generators; CFG path rules on dfs — structural necessary conditions only",
+    "Claimed narrowly. Decides on the parsed source: the three sibling predicates that separate "
+    "consumers from devices, the graph's is_*_chain predicates and producer + pool-backed kinds "
+    "name the same chain kinds; the four is_*_meter predicates share their conjunct set (METER, not "
+    "the grid meter, non-empty successors, all successors of the kind's leaf) and each chain is "
+    "leaf-or-meter; primary/fallback pairing and meter fallback treat the four kinds separately; "
+    "dfs stops at the first match, marks visited first and recurses over all successors; every "
+    "sum-emitting loop pushes one metric per term with an operator between terms, nones_are_zeros "
+    "is `category != METER` (or the constant it has for the loop's kind), grid power ranges over "
+    "every measurable grid successor. It does NOT decide that these traversals yield the true "
+    "totals on every valid topology (the balance identity over all graphs).",
+    "Trusted: the frozen kind table (pv, chp searched; battery, ev_charger pool-backed) and the "
+    "enumerated constant idioms for nones_are_zeros.",
+    "DESIGN.md §2 C12")
+
 PENDING_REASON = ("no static check is registered for this property yet in this revision of the "
                   "machinery (planned rules are in DESIGN.md §2); nothing is claimed for it")
 
